@@ -860,8 +860,10 @@ proc_line(struct prln_ctx_s ctx, char *line, size_t llen)
 
 	do {
 		/* check if line matches, */
+		/* like on the command line the zone is taken off after
+		 * the rounding, which happens in the zone's wall-clock time */
 		d = dt_io_find_strpdt2(
-			line, llen, ctx.ndl, &sp, &ep, ctx.fromz);
+			line, llen, ctx.ndl, &sp, &ep, NULL);
 
 		if (!dt_unk_p(d)) {
 			if (UNLIKELY(d.fix) && !ctx.quietp) {
@@ -1159,7 +1161,8 @@ no durations given");
 					goto empty;
 				}
 				/* try and parse the line */
-				d = dt_io_strpdt_ep(line, fmt, nfmt, &ep, fromz);
+				/* zone conversion after the rounding */
+				d = dt_io_strpdt_ep(line, fmt, nfmt, &ep, NULL);
 				if (UNLIKELY(dt_unk_p(d))) {
 					goto empty;
 				} else if (ep && (unsigned)*ep >= ' ') {
